@@ -7,6 +7,7 @@ import (
 )
 
 func TestVerifSim(t *testing.T) {
+	verifC31Setup()
 	verifsim.Main(t, map[string]*verifsim.Engine{
 		"C31": verifEngineC31,
 	})
